@@ -2,7 +2,7 @@
    components instantiated to N (the harness numbers the distinct component
    strings of a case; the core only ever compares them). *)
 From Coq Require Import List Bool NArith.
-From PTA Require Import Sx Names Graph Search Rule.
+From PTA Require Import Sx Names Graph Search Worklist Rule.
 Import ListNotations.
 Open Scope N_scope.
 
@@ -125,6 +125,31 @@ Definition run_other (out : bool) (arg : sx) : sx :=
     | Some g, Some ds, Some us =>
       of_res (of_list (of_pair of_filt (of_list of_edge)))
              (if out then other_out_all ceq g ds us else other_in_all ceq g ds us)
+    | _, _, _ => sx_err
+    end
+  | _ => sx_err
+  end.
+
+(* fn 31..33: the same three queries computed by the worklist loops (Model/Worklist.v); out of fuel = sx_err *)
+Definition of_ores {X} (f : X -> sx) (r : option (res X)) : sx :=
+  match r with None => sx_err | Some r => of_res f r end.
+Definition run_wq_between (arg : sx) : sx :=
+  match arg with
+  | L [g; ds; us] =>
+    match as_graph g, as_list as_filt ds, as_list as_filt us with
+    | Some g, Some ds, Some us =>
+      of_ores (of_list (of_pair (of_pair of_filt of_filt) (of_list of_edge))) (w_get_dependencies ceq g ds us)
+    | _, _, _ => sx_err
+    end
+  | _ => sx_err
+  end.
+Definition run_wother (out : bool) (arg : sx) : sx :=
+  match arg with
+  | L [g; ds; us] =>
+    match as_graph g, as_list as_filt ds, as_list as_filt us with
+    | Some g, Some ds, Some us =>
+      of_ores (of_list (of_pair of_filt (of_list of_edge)))
+              (if out then w_other_out_all ceq g ds us else w_other_in_all ceq g ds us)
     | _, _, _ => sx_err
     end
   | _ => sx_err
